@@ -305,7 +305,9 @@ def print_assumptions(pid, timeout=1200):
             cur = []
             blocks.append(cur)
         elif cur is not None:
-            m = re.match(r"^(\S+)\s*:", line)
+            # an axiom is printed as `name : type` or, for long types, `name` alone on one line
+            # followed by an indented `  : type`
+            m = re.match(r"^([A-Za-z_][\w.']*)\s*(:|$)", line)
             if m and not line.startswith(" "):
                 cur.append(m.group(1))
             elif line.strip() == "":
